@@ -181,3 +181,70 @@ Theorem recode_transparent_refuted :
     bcast (Frame (fst (r_named r)) (urows (st_obj s))) (Frame (snd (r_named r)) (urows (st_prm s)))
     = Rows [([1; 5; 10], Some 0, Some 0); ([2; 6; 20], Some 1, Some 1)].
 Proof. exists coincident_witness. vm_compute. split; reflexivity. Qed.
+
+(* ------------------------------------------------------------------ the dispatch of Broadcaster.broadcast *)
+
+Theorem paramset_iff k l : is_paramset k l = true <-> k = KSeries /\ l = [None].
+Proof.
+  split.
+  - destruct k; cbn; [|discriminate]. destruct l as [|[n|] [|x l]]; try discriminate. now intros _.
+  - intros [-> ->]. reflexivity.
+Qed.
+
+(* a DataFrame, an object with a number of levels other than one, an object with a named level: joined as it is *)
+Theorem row_indexed_joined_as_is (V : Type) k (w : V) (s : state V) :
+  k = KFrame \/ length (ulv (st_obj s)) <> 1%nat \/ (exists n, In (Some n) (ulv (st_obj s))) ->
+  as_joined k w (st_obj s) = st_obj s /\ broadcast_top k w s = bcast_impl s.
+Proof.
+  intros H.
+  assert (E : is_paramset k (ulv (st_obj s)) = false).
+  { destruct (is_paramset k (ulv (st_obj s))) eqn:E; [|reflexivity]. apply paramset_iff in E. destruct E as [-> E].
+    rewrite E in H. destruct H as [H|[H|[n [H|[]]]]]; [discriminate|now elim H|discriminate]. }
+  assert (A : as_joined k w (st_obj s) = st_obj s) by (unfold as_joined; now rewrite E).
+  split; [exact A|]. unfold broadcast_top. rewrite A. now destruct s.
+Qed.
+
+Lemma name_levels_length l : forall s, length (fst (name_levels s l)) = length l.
+Proof.
+  induction l as [|[n|] l IH]; intros s; cbn; [reflexivity| |].
+  - specialize (IH s). destruct (name_levels s l) as [r e]. cbn in *. now rewrite IH.
+  - specialize (IH (S s)). destruct (name_levels (S s) l) as [r e]. cbn in *. now rewrite IH.
+Qed.
+
+Lemma result_levels_length lo lp : (length lo <= length (result_levels lo lp))%nat.
+Proof.
+  unfold result_levels.
+  destruct (have_commons lo lp && Nat.leb (length (total lo lp)) 2).
+  - destruct (Nat.leb (length lp) (length lo)) eqn:E; [lia|]. apply Nat.leb_gt in E. lia.
+  - unfold total. rewrite app_length. lia.
+Qed.
+
+(* every index level of a row-indexed object is still there in the returned objects (they have at least as many levels) *)
+Theorem object_levels_survive (V : Type) k (w : V) (s : state V) :
+  is_paramset k (ulv (st_obj s)) = false ->
+  (length (ulv (st_obj s)) <= length (r_levels (broadcast_top k w s)))%nat.
+Proof.
+  intros E. unfold broadcast_top, as_joined. rewrite E.
+  destruct s as [[lo ro] [lp rp]]. unfold bcast_impl. cbn [st_obj st_prm ulv urows].
+  destruct (name_levels 0 lp) as [nlp e] eqn:Ep.
+  pose proof (name_levels_length lo e) as Ho. destruct (name_levels e lo) as [nlo e'] eqn:Eo. cbn in Ho.
+  cbn [r_levels]. rewrite map_length. rewrite <- Ho. apply result_levels_length.
+Qed.
+
+Lemma total_nil l : total [] l = l.
+Proof. unfold total, newlv. cbn. induction l as [|n l IH]; [reflexivity|]. cbn. now rewrite IH. Qed.
+
+(* a parameter set adds no level: the returned objects are on the parameter's index levels *)
+Theorem paramset_on_parameter_levels (V : Type) (w : V) (s : state V) :
+  is_paramset KSeries (ulv (st_obj s)) = true ->
+  r_levels (broadcast_top KSeries w s) = ulv (st_prm s).
+Proof.
+  intros E. unfold broadcast_top, as_joined. rewrite E.
+  destruct s as [[lo ro] [lp rp]]. unfold bcast_impl. cbn [st_obj st_prm ulv urows].
+  pose proof (name_levels_unname lp 0) as Hp. destruct (name_levels 0 lp) as [nlp e]. cbn in Hp.
+  cbn [name_levels r_levels].
+  pose proof (total_nil nlp) as T.
+  assert (R : result_levels [] nlp = nlp).
+  { unfold result_levels, have_commons. rewrite T. cbn [length]. rewrite Nat.add_0_r, Nat.ltb_irrefl. reflexivity. }
+  rewrite R. exact Hp.
+Qed.
